@@ -143,6 +143,11 @@ Print Assumptions Blocks_lines_lf_terminated.
    open_new_blocks_loop is bounded, and the candidate open-spine invariant below was evaluated and found FALSE
    (corrected version: Blocks_total_spine_corrected_on_corpus).  The list REMAINING that is up to date is in the
    comment of the fourth round; the one below is the state after the third round.
+   Fifth round (end of this file, Proofs/BlocksTotal5*.v): FUEL is done for the whole parse (Blocks_total_partial_no_fuel:
+   parse_blocks never answers OutOfFuel, every input, every option set) and the list of what remains is a THEOREM:
+   Blocks_total_partial_ok_or_remaining — parse_blocks o x is Ok or a Panic at one of the 35 sites of
+   Blocks_total_remaining_sites_list.  The comment at the very end of this file says, site by site, which invariant
+   excludes it; the lists below are the state after the third round.
    REMAINING for the full statement (no whole-parse theorem yet):
      open-spine sites   mod.rs:finalize_borrowed:assert!(ast.open), mod.rs:add_line:assert!(ast.open),
                         mod.rs:add_text_to_container:self.finalize(self.current).unwrap(),
@@ -848,3 +853,184 @@ Theorem Blocks_total_document_accepts_add_child_kinds :
   forallb (V.Gen.Nodes.can_contain KDocument) BlocksTotal4Spine.add_child_kinds = true.
 Proof. exact BlocksTotal4Spine.document_accepts_add_child_kinds. Qed.
 Print Assumptions Blocks_total_document_accepts_add_child_kinds.
+
+(* ---- totality, fifth round (Proofs/BlocksTotal5*.v).
+   Step 1 (Proofs/BlocksTotal5Fuel.v, FuelDesc.v, Adv.v, Loop.v): FUEL.  The last loop without a bound,
+   open_new_blocks_loop (fuel 2 |L| + 8), is bounded: every iteration that goes on moved the offset forward by at least
+   one byte (lower bounds of the scanners, Proofs/BlocksTotal4Scan.v) or opened an html block without consuming
+   anything, after which the loop stops at once (Blocks_total_partial_open_new_blocks_step_advances); the table case
+   Some((container, false, _)) never goes on, its container is a paragraph.  parse_desc_list_details /
+   handle_description_list and the other handlers are bounded under the tree invariant W.  Three walks of the same
+   computation are combined (tree walk `safe`, cursor walk `sg (but cur_sites)`, fuel walk `sg (every site) false`).
+   Not pinned (the check compiles this file on every run): BlocksTotal5Loop.process_line_no_fuel, open_new_blocks_no_fuel,
+   BlocksTotal5FuelDesc.nf_parse_desc_list_details / nf_handle_description_list (under the invariant J of the handlers).
+   RESULT, for EVERY input byte string (valid UTF-8 or not) and EVERY option set: parse_blocks never answers OutOfFuel
+   (Blocks_total_partial_no_fuel); so `parse_blocks o x` is Ok or a Panic at a site outside the 76 excluded ones. *)
+From V Require Proofs.BlocksTotal5Fuel Proofs.BlocksTotal5FuelDesc Proofs.BlocksTotal5Adv Proofs.BlocksTotal5Loop.
+
+Theorem Blocks_total_partial_no_fuel : forall o x, parse_blocks o x <> OutOfFuel.
+Proof. exact BlocksTotal5Loop.parse_blocks_no_fuel. Qed.
+Print Assumptions Blocks_total_partial_no_fuel.
+
+
+
+(* one iteration of open_new_blocks from a state with the handlers' invariant J and the cursor inside the line: it
+   does not run out of fuel, and when it goes on the offset has moved forward, or has not moved back and the container
+   handed on is a code / html block *)
+Theorem Blocks_total_partial_open_new_blocks_step_advances : forall o lmc cur0 line st c am ml d go c1 s1,
+  lf_terminated line -> BlocksTotal2Walk.J o lmc cur0 st c -> BlocksTotal4Walk.C1 line st ->
+  open_new_blocks_step o st c line am ml d <> OutOfFuel /\
+  (open_new_blocks_step o st c line am ml d = Ok (go, c1, s1) -> go = true ->
+   c_offset (ps_cur st) < c_offset (ps_cur s1)
+   \/ (c_offset (ps_cur st) <= c_offset (ps_cur s1) /\ forall n, get s1 c1 = Ok n -> is_code_or_html n = true)).
+Proof.
+  intros o lmc cur0 line st c am ml d go c1 s1 LN Jc C.
+  pose proof (BlocksTotal5Loop.step_adv o lmc cur0 line LN st c am ml d Jc C) as S. split.
+  - eapply BlocksTotal4Safe.sg_no_fuel. exact S.
+  - intros E. rewrite E in S. exact S.
+Qed.
+Print Assumptions Blocks_total_partial_open_new_blocks_step_advances.
+
+
+(* Step 2 (Proofs/BlocksTotal5Only.v): the list of what REMAINS, as a theorem.  An `only` walk (al = only (tree_sites ++
+   cur_sites ++ rem_sites)) of the whole parse, without any invariant: every Panic literal of the model is in that list
+   (checked at each occurrence) or belongs to a leaf function that is total for all arguments (trim / ltrim / rtrim,
+   unescape + shift_buf_left, unescape_html, manual_scan_link_url, table.rs row).  Intersected with the tree walk, the
+   cursor walk and the fuel walk: for EVERY input byte string and EVERY option set parse_blocks answers Ok, or Panic
+   at one of the 35 sites of rem_sites (pinned verbatim below), never OutOfFuel.  Two sites are excluded by a local
+   argument inside this walk: strings.rs:clean_title:title[1..title_len - 1] (clean_title panics on a title of length 1:
+   StrLeaf_clean_title_refuted; its only caller in the block phase, parse_reference_inline, hands it the empty title or
+   a scan_link_title match, at least 2 bytes) and strings.rs:line_at:bytes[end..] (split_off_front_matter starts line_at
+   at 0 and then at the `next` of the line before, which is inside the string). *)
+From V Require Proofs.BlocksTotal5Only.
+
+Theorem Blocks_total_remaining_sites_list :
+  BlocksTotal5Only.rem_sites =
+  [ "mod.rs:finalize_borrowed:assert!(ast.open)";
+    "mod.rs:add_line:assert!(ast.open)";
+    "mod.rs:add_text_to_container:self.finalize(self.current).unwrap()";
+    "mod.rs:add_child:self.finalize(parent).unwrap()";
+    "mod.rs:add_line:str::from_utf8(&line[self.offset..]).unwrap()";
+    "mod.rs:handle_alert:String::from_utf8(tmp).unwrap()";
+    "mod.rs:handle_footnote:str::from_utf8(c).unwrap()";
+    "mod.rs:finalize_borrowed:String::from_utf8(tmp).unwrap()";
+    "mod.rs:resolve_reference_link_definitions:content[seeked..]";
+    "inlines.rs:link_label:str::from_utf8(raw_label).unwrap()";
+    "mod.rs:parse_reference_inline:String::from_utf8(clean_url).unwrap()";
+    "mod.rs:parse_reference_inline:String::from_utf8(clean_title).unwrap()";
+    "table.rs:try_inserting_table_header_paragraph:String::from_utf8(paragraph_content).unwrap()";
+    "strings.rs:split_off_front_matter:slice_from";
+    "strings.rs:split_off_front_matter:slice_to";
+    "strings.rs:line_at:slice";
+    "mod.rs:add_child:assert!(start_column > 0)";
+    "mod.rs:parse_html_block_prefix:unreachable!()";
+    "mod.rs:finalize_borrowed:self.line_number - 1";
+    "mod.rs:finalize_borrowed:assert!(pos < content.len())";
+    "mod.rs:finalize_borrowed:content.as_bytes()[pos]";
+    "table.rs:try_inserting_table_header_paragraph:content[..paragraph_offset]";
+    "table.rs:try_inserting_table_header_paragraph:container_ast.line_offsets[n]";
+    "table.rs:try_inserting_table_header_paragraph:start.line + newlines - 1";
+    "table.rs:try_opening_header:start.column + cell.start_offset - header_row.paragraph_offset";
+    "table.rs:try_opening_header:cell.end_offset - header_row.paragraph_offset";
+    "table.rs:try_opening_header:start.column + cell.start_offset - 1";
+    "table.rs:try_opening_header:.. + cell.internal_offset - header_row.paragraph_offset";
+    "table.rs:try_opening_header:content.len() - 2";
+    "table.rs:try_opening_header:content.len() - 2 - header_row.paragraph_offset";
+    "table.rs:try_opening_row:sourcepos.start.column + cell.start_offset - 1";
+    "inlines.rs:peek_char_n:assert!(*c > 0)";
+    "strings.rs:remove_trailing_blank_lines:line.len() - 1";
+    "strings.rs:chop_trailing_hashtags:line.len() - 1";
+    "strings.rs:chop_trailing_hashtags:line[n]" ].
+Proof. reflexivity. Qed.
+Print Assumptions Blocks_total_remaining_sites_list.
+
+(* the sites this round adds to the 76 of Blocks_total_partial_sites_all *)
+Theorem Blocks_total_new_sites_list :
+  BlocksTotal5Only.new_sites =
+  [ "strings.rs:ltrim:line.len() - spaces";
+    "strings.rs:rtrim:line.len() - spaces";
+    "strings.rs:unescape:prev + 1 - found";
+    "strings.rs:unescape:window slice";
+    "strings.rs:unescape:v.len() - found";
+    "strings.rs:shift_buf_left:assert n <= buf.len()";
+    "entity.rs:unescape:hex digit - 9";
+    "inlines.rs:manual_scan_link_url:input[1..i - 1]";
+    "strings.rs:clean_title:title[1..title_len - 1]";
+    "strings.rs:line_at:bytes[end..]" ].
+Proof. reflexivity. Qed.
+Print Assumptions Blocks_total_new_sites_list.
+
+(* 11 tree + 65 cursor + 10 sites: unreachable for every input byte string and every option set *)
+Theorem Blocks_total_partial_sites_all5 : forall o x s,
+  In s (BlocksTotal2Safe.tree_sites ++ BlocksTotal4Frame.cur_sites ++ BlocksTotal5Only.new_sites) -> parse_blocks o x <> Panic s.
+Proof. exact BlocksTotal5Only.parse_blocks_no_panic_all5. Qed.
+Print Assumptions Blocks_total_partial_sites_all5.
+
+Theorem Blocks_total_partial_ok_or_remaining : forall o x,
+  (exists r, parse_blocks o x = Ok r) \/ (exists s, parse_blocks o x = Panic s /\ In s BlocksTotal5Only.rem_sites).
+Proof. exact BlocksTotal5Only.parse_blocks_ok_or_rem. Qed.
+Print Assumptions Blocks_total_partial_ok_or_remaining.
+
+(* ---- state after the fifth round.  PROVED for the whole parse_blocks, EVERY input byte string (valid UTF-8 or not),
+   EVERY option set: no OutOfFuel; 76 + 10 Panic sites unreachable (tree_sites, cur_sites, the sites of the leaf
+   functions that are total for all arguments: strings.rs ltrim / rtrim (2), unescape (3) with shift_buf_left (1),
+   entity.rs:unescape:hex digit - 9, inlines.rs:manual_scan_link_url:input[1..i - 1], and by a local argument
+   strings.rs:clean_title:title[1..title_len - 1] and strings.rs:line_at:bytes[end..]; strings.rs:normalize_code:r[0] is
+   not called by the block phase); any Panic is at one of the 35 sites of rem_sites.
+   REMAINING for Blocks_total_full_statement = exactly rem_sites.  What excludes each of them (read off the model; NOT
+   proved unless said), so that a later round can pick one family, prove its own `sg (but L) ..` walk and intersect:
+     open spine (4)   finalize_borrowed:assert!(ast.open), add_line:assert!(ast.open),
+                      add_text_to_container:self.finalize(self.current).unwrap(): spine_ok2 between lines with P1 / P2
+                      inside a line (comment of the fourth round).
+                      add_child:self.finalize(parent).unwrap() needs NO spine: finalize answers the parent computed
+                      before it closes the node, so None means `parent` has no parent, i.e. (W) it is the root, a
+                      Document; the Document accepts every kind add_child is called with
+                      (Blocks_total_document_accepts_add_child_kinds) except Item, DescriptionItem, DescriptionTerm,
+                      DescriptionDetails, and those four are added under a node that accepts them at once (the List
+                      handle_list has just created or matched; the DescriptionList created / reopened, the parent of a
+                      DescriptionItem — SV —, the DescriptionItem just created): walk = handlers with J + the kind of the
+                      node add_child has just created (BlocksTotal4Atx.add_child_gen_get); the expensive part is
+                      parse_desc_list_details (kinds through reopen_ast_nodes / set_start).
+     state (1)        finalize_borrowed:self.line_number - 1: `ps_curline_len st = 0 \/ 1 <= ps_line_number st`; the two
+                      fields are written by process_line and the front matter prologue only (every other function is a
+                      frame for them; Proofs/BlocksTotal4Frame.v has the frame lemmas KC for cursor + curline_len).
+     tree values      add_child:assert!(start_column > 0): every call of add_child passes S _ or 1; the table callers
+                      pass start columns read from the tree: invariant `every node has bi_sc >= 1` + row facts
+                      (cell.start_offset >= paragraph_offset: cell_start_loop stops at paragraph_offset).
+                      parse_html_block_prefix:unreachable!(): every HtmlBlock in the tree has block type 1..7
+                      (scan_html_block_start answers 1..6, scan_html_block_start_7 answers 7; `matched mod 256`).
+                      finalize_borrowed:assert!(pos < content.len()), content.as_bytes()[pos]: every fenced CodeBlock
+                      in the tree other than the container just created has a content that contains LF and no CR (the
+                      opening line is added by add_text_to_container before anything can finalize the block: the new
+                      node is a leaf and is not self.current, so finalize_up_to does not meet it).
+                      table.rs try_inserting_table_header_paragraph (content[..paragraph_offset], line_offsets[n],
+                      start.line + newlines - 1), try_opening_header (content.len() - 2 [- paragraph_offset], cell
+                      arithmetic), try_opening_row (cell arithmetic): paragraph content ends with LF (so
+                      paragraph_offset + 2 <= |content| when row answers Some: without the final LF the model panics,
+                      e.g. content x LF a), |line_offsets| = number of lines of content, bi_sl >= 1, bi_sc >= 1, and
+                      facts about `row` (offsets of the cells inside the string).
+                      inlines.rs:peek_char_n (the assert c > 0): paragraph content is NUL-free (feed replaces NUL).
+     refuted leaves   remove_trailing_blank_lines (panics on the empty string only): called on the front matter (not
+                      empty: it contains the delimiter) and on the content of an indented code block at finalize (not
+                      empty once its first line is added: same window argument as for fenced blocks).
+                      chop_trailing_hashtags (panics iff every byte of the line is space / tab / CR / LF): called by
+                      add_text_to_container on the WHOLE line when the container is an ATX heading and the rest is
+                      not blank; an ATX heading is a container only on the line that opened it (check_open_blocks
+                      never matches a Heading), and that line contains its # — needs `container is an ATX heading ->
+                      opened by this line` through open_new_blocks; when first_nonspace < |line| it is local (the byte
+                      at first_nonspace is neither space, tab nor a line end); the case offset = |line| (the ATX
+                      scanner consumed the LF) is the one that needs the #.
+                      clean_title: DONE in this round (local to parse_reference_inline).
+                      A site with a LOCAL argument (true for all arguments of the function that contains it or of
+                      its only caller) is removed inside Proofs/BlocksTotal5Only.v itself, no new walk: done for
+                      clean_title and line_at:bytes[end..]; candidates: content[..paragraph_offset] (row answers
+                      paragraph_offset <= |s|), remove_trailing_blank_lines on the front matter.
+     UTF-8 (12)       add_line, handle_alert, handle_footnote, finalize_borrowed (info string), content[seeked..],
+                      link_label, clean_url / clean_title, try_inserting_table_header_paragraph, the three
+                      char-boundary slices of strings.rs front matter: boundary invariant on valid UTF-8 input (the
+                      offset and every stored slice boundary is a char boundary; Blocks_total_utf8_suffix_partial and
+                      at_boundary give the four sufficient conditions).  These are the only sites that need the
+                      premise utf8_valid x of Blocks_total_full_statement (Blocks_total_needs_utf8).
+   A `but L` walk has to restate a lemma for every function between the site and parse_blocks (the allowed set is part
+   of the statement); Proofs/BlocksTotal5Only.v is the complete list of those functions with scripts that need no
+   invariant (copy it with the new allowed set; only the functions that reach a site of L need a premise). *)
